@@ -484,9 +484,16 @@ static int pad_pkcs2(bn_t m, size_t *p_len, size_t m_len, size_t k_len,
 					}
 					md_mgf(mask, k_len - RLC_MD_LEN - 1, h1, RLC_MD_LEN);
 					bn_read_bin(t, mask, k_len - RLC_MD_LEN - 1);
+					/* Unmask all digits, also above the most significant one. */
+					bn_grow(m, t->used);
+					for (int i = m->used; i < t->used; i++) {
+						m->dp[i] = 0;
+					}
+					m->used = RLC_MAX(m->used, t->used);
 					for (int i = 0; i < t->used; i++) {
 						m->dp[i] ^= t->dp[i];
 					}
+					bn_trim(m);
 					m_len -= RLC_MD_LEN;
 					bn_rsh(t, m, 8 * m_len);
 					bn_write_bin(h2, RLC_MD_LEN, t);
